@@ -51,6 +51,12 @@ def gen_case(rng, flavor=None, size=None):
                 ops += [['vote'], ['finish']]
                 committed |= {b[1] for b in body if b[0] == 'blob'}
                 ntx += 1
+                if body and body[0][0] == 'undo' and rng.random() < 0.5:
+                    # make the undo revision non-current and pack after it: its file has to go with it
+                    if rng.random() < 0.4:
+                        ops += [['begin'], ['undo', 1], ['vote'], ['finish']]
+                    ops += [['begin']] + [['blob', s2, gen_data(rng), 0] for s2 in sorted(committed)[:2]] + \
+                        [['vote'], ['finish'], ['pack', rng.choice([0, 0, 1]), rng.choice([0, 1])]]
             elif end < 0.75:
                 ops += [['abort']]                      # abort before vote
             elif end < 0.92:
@@ -327,6 +333,8 @@ def run_case(case, root, ck=None):
                       linked = set(linked_p)
                       txn, pending = None, None
                       check('finish')
+                      if env.abort_intruder():
+                          check('abort')         # a transaction begun during the finish and aborted: no file
                   elif kind == 'abort':
                       if txn is None:
                           continue
@@ -398,5 +406,5 @@ def run_case(case, root, ck=None):
         finally:
             env.close()
     return dict(lines=['reset ' + flavor] + env.lines + extra[0], real=['ok'] + env.real + extra[1],
-                problems=problems,
+                problems=problems, tie=env.tie_breaks,
                 nontrivial=nontrivial, stats=stats)
